@@ -165,6 +165,8 @@ def aside_cnt(v):
 
 
 def build(reg, src):
+    from contracts import c16_tables
+    reg.extra_checks.append(c16_tables.table_merge_check)
     reg.assumptions += [
         "single client: a submitted task runs when its submitter waits for it, after the lock was released (C18 drops this)",
         "ghost file model of contracts/fsmodel.py; no other process writes into the store directory; os.path.join injective on normalised keys",
